@@ -1,3 +1,4 @@
+import Props.C03Logic
 import SynapModel.Generated.OpTable
 import Proofs.EngineDuality
 import Proofs.EngineStack
